@@ -583,8 +583,8 @@ impl Property for C03 {
     }
     fn runs(&self, tier: Tier) -> u64 {
         match tier {
-            Tier::Quick => 400_000,
-            Tier::Thorough => 12_000_000,
+            Tier::Quick => 1_000_000,
+            Tier::Thorough => 30_000_000,
         }
     }
     fn probe_names(&self) -> &'static [&'static str] {
